@@ -8,6 +8,18 @@ from .report import RuleResult
 RULES = {}
 
 
+def _private_subject(msg):
+    """the qualified name an AnchorMissing message is about, if its last component is private (`_x`, not `__x__`)"""
+    import re
+    m = re.match(r"(?:function |method |class )?([A-Za-z_][\w]*(?:\.[A-Za-z_][\w]*)+)", msg)
+    if not m:
+        return None
+    last = m.group(1).split(".")[-1]
+    if last.startswith("_") and not (last.startswith("__") and last.endswith("__")):
+        return m.group(1)
+    return None
+
+
 def rule(name, title, floor=0):
     def deco(fn):
         RULES[name] = (fn, title, floor)
@@ -35,7 +47,18 @@ class Ctx:
         fn, title, floor = RULES[name]
         R = RuleResult(name, title, floor)
         try:
-            fn(self, R)
+            try:
+                fn(self, R)
+            except AnchorMissing as e:
+                # Anchors are public or structural entities.  A *private* helper (leading underscore) that a rule used as its
+                # starting point and that is no longer there - split, inlined, renamed, moved behind another object - is not an
+                # anchor: the rule says, as an explicit instance in the evidence, that it did not recognise the construct
+                # (not decided), instead of declaring the whole check broken.  A missing public entity stays an error.
+                priv = _private_subject(str(e))
+                if priv is None or R.violations:
+                    raise
+                R.unrecognised("%s::not recognised" % priv, "nptdms", "the private helper this rule starts from is not where it was (%s): "
+                               "what the rule decides about it is NOT decided on this tree" % e)
             R.finish()
         except AnalysisError as e:
             # a violating shape that was established before the analysis lost its footing
